@@ -1,8 +1,10 @@
 #!/bin/sh
-# seedtest.sh <patch.diff> <ID> [tier] : apply a seeded change to /repo, run the check, undo the change.
-P=$1; ID=$2; TIER=${3:-quick}
+# seedtest.sh <patch.diff> <ID> [tier] [extra bin/check args]: apply a seeded change to /repo, run the check, undo the change.
+P=$(realpath $1); ID=$2; TIER=${3:-quick}
+[ $# -ge 3 ] && shift 3 || shift 2
 cd /repo && git diff --quiet || { echo "repo dirty"; exit 3; }
 git -C /repo apply $P || exit 3
-cd /verif && bin/check $ID --tier $TIER --no-evidence > /tmp/seedtest_$ID.log 2>&1; RC=$?
+trap 'git -C /repo checkout -- .' EXIT INT TERM
+cd /verif && bin/check $ID --tier $TIER --no-evidence "$@" > /tmp/seedtest_$ID.log 2>&1; RC=$?
 git -C /repo checkout -- .
 echo "exit=$RC"; grep -E "^(VIOLATION|KNOWN|INCONCLUSIVE|HARNESS)" /tmp/seedtest_$ID.log | head -5; tail -1 /tmp/seedtest_$ID.log
